@@ -17,6 +17,7 @@ FAMILIES_FOR = {
     "C04": ["adversarial", "core"],
     "C05": ["teval"],
     "C06": ["core", "lowlevel", "teval"],
+    "C07": ["lowlevel"],
     "C08": ["events", "terminal"],
     "C09": ["events"],
     "C10": ["terminal", "teval"],
@@ -106,7 +107,7 @@ def validate(fam, path, res):
     with open(path) as f:
         for line in f:
             nl += 1
-            if line.startswith('{"d":') or '"e":"jac"' in line[:30] or '"e":"ev"' in line[:30] or '"e":"gap"' in line[:30]:
+            if line.startswith('{"d":') or '"e":"jac"' in line[:30] or '"e":"ev"' in line[:30] or '"e":"gap"' in line[:30] or '"e":"hk"' in line[:30]:
                 continue  # ode / jac / ev / gap events
             if '"e":"cb"' in line[:80]:
                 continue
@@ -162,6 +163,73 @@ def validate(fam, path, res):
                             "counters": {k: r.get(k) for k in ("nfev", "njev", "nstep", "naccpt", "nrejct") if k in r}})
 
 
+def loop_conformance(fam, path, res, method="RADAU", module="Trace_Radau", banner="RADAU-TRACE"):
+    """Level B: every recorded RADAU / BDF run (low-level and through solve_ivp) is a behaviour of Radau.tla / Bdf.tla
+    (trace validation with the solver's decision points logged through the hook ivp::verif_trace).
+    Rejections are specification drift, never violations."""
+    runs, cur, meta = [], None, None
+    with open(path) as f:
+        for line in f:
+            if line.startswith('{"api"'):
+                meta = json.loads(line)
+                cur = [line] if meta.get("method") == method else None
+                continue
+            if cur is None:
+                continue
+            cur.append(line)
+            if '"e":"ret"' in line or '"e":"abort"' in line:
+                ok = '"e":"ret"' in line and '"kind":"err"' not in line and not any(x.startswith('{"e":"gap"') for x in cur) \
+                    and any(x.startswith('{"d":') for x in cur)      # the solver was actually entered
+                if ok:
+                    runs.append((meta["id"], cur))
+                cur = None
+    if not runs:
+        return
+    tags = Counter()
+    for _id, r in runs:
+        for x in r:
+            if x.startswith('{"e":"hk"'):
+                tags[json.loads(x)["t"]] += 1
+    rejected = []
+    for attempt in range(8):
+        sel = path + "." + method.lower()
+        with open(sel, "w") as f:
+            for _id, r in runs:
+                f.writelines(r)
+        t = vlib.tlc(module, module + ".cfg", cwd=SSPEC, workers=1, deque=True, xss=True, xmx="6g",
+                     env={"TRACE": sel}, timeout=1500)
+        os.remove(sel)
+        verdict = [l for l in t.printed if l.startswith('<<"' + banner + '"')]
+        if not t.ok or not verdict:
+            if t.invariant:
+                res.drift += 1
+                res.drift_samples.append(f"{module}: invariant {t.invariant} of the loop model fails on an explanation of family {fam}")
+                break
+            vlib.log(t.out[-2000:])
+            raise vlib.ToolError(f"{module} failed on family {fam}: {t.error}")
+        v = vlib.parse_tla(verdict[-1])
+        res.states += t.distinct
+        res.transitions += t.generated
+        if v[1] == "accepted":
+            break
+        # find the run that contains the first unmatched line, report it as drift, drop it and validate the rest
+        at, acc_lines = v[2], 0
+        for i, (rid, r) in enumerate(runs):
+            if acc_lines + len(r) >= at:
+                rejected.append(rid)
+                res.drift += 1
+                if len(res.drift_samples) < 6:
+                    res.drift_samples.append(f"{module}: run {rid} of family {fam} is not a behaviour of the loop model (line {at - acc_lines} of the run: {r[min(at - acc_lines, len(r)) - 1][:120].strip()})")
+                del runs[i]
+                break
+            acc_lines += len(r)
+    res.levelb[method + "_loop:runs_accepted"] += len(runs)
+    res.levelb[method + "_loop:runs_rejected"] += len(rejected)
+    res.levelb[method + "_loop:trace_lines"] += sum(len(r) for _i, r in runs)
+    for k, n in tags.items():
+        res.levelb[method + "_loop:" + k] += n
+
+
 # thorough: every family is recorded for several derived seeds (the random sweeps differ, the corner sweeps repeat)
 THOROUGH_SUBSEEDS = 6
 
@@ -175,6 +243,8 @@ def run_families(fams, tier, seed, work):
             nwd, _ = record_family(fam, tier, sd, p)
             res.watchdog += nwd
             validate(fam if si == 0 else f"{fam}#{si}", p, res)
+            loop_conformance(fam if si == 0 else f"{fam}#{si}", p, res, "RADAU", "Trace_Radau", "RADAU-TRACE")
+            loop_conformance(fam if si == 0 else f"{fam}#{si}", p, res, "BDF", "Trace_Bdf", "BDF-TRACE")
             if tier != "quick":
                 os.remove(p)
     return res
